@@ -27,7 +27,7 @@ CLAIMS = {
  "C09": ("Lean theorem: a native declaration is accepted iff the first attached coin of that denom (absent = 0) carries exactly the declared amount; rejection is an ordinary error. "
          "Correspondence: the finite funds-shape matrix enumerated completely.", "§6 C09", "Lean 4 proof (decision logic) + exhaustive finite matrix"),
  "C10": ("Lean theorems: soundness and completeness of both branches of assert_max_spread in cross-multiplied integer form, correctness and success set of the decimals normalisation, guard only with max_spread. "
-         "Correspondence: all 20×20 decimal pairs × both branches with values solved around the limit; guard vs other failure compared by enum variant.",
+         "Correspondence: all 20×20 decimal pairs × both branches with values solved around the limit; guard vs other failure compared by enum variant; world family swap: every accepted swap is judged against the bound on its reported amounts with the pair's own decimals, every guard rejection against the quote taken just before.",
          "§6 C10", "Lean 4 proof + differential correspondence"),
  "C12": ("Lean theorems: closed integer form of compute_offer_amount, never above the documented closed form, below it by at most the stated rounding, commission formula. "
          "Correspondence: compute_offer_amount family around the feasibility frontier.", "§6 C12", "Lean 4 proof + differential correspondence"),
@@ -52,12 +52,12 @@ CLAIMS = {
          "NoLowExt for identifiers with bytes ≥ 2, necessity of the hypothesis, sortedness preserved by insertion. Correspondence: read_pairs over real storage, world family factory.",
          "§6 C19", "Lean 4 proof (list algorithm, termination, completeness) + differential correspondence"),
  "C03": ("Lean theorems: the share-value order NonDecr is reflexive and transitive (so it lifts to histories), and is preserved by provisions (share formula), withdrawals (refund formula), out-of-window swaps (pricing function, commission kept), "
-         "donations and holder burns; the unrestricted statement is refuted by a proved witness (same root cause as C01, known finding KF-SWAP-WINDOW), and at system level (C03W): every operation of every external actor either keeps the share value of a pair or performs an in-window swap on it, preserving an inductive invariant; lifted to all finite histories (history_nondecr = C03_partial: the full statement minus exactly the in-window swaps). "
+         "donations and holder burns; the unrestricted statement is refuted by a proved witness (same root cause as C01, known finding KF-SWAP-WINDOW), and at system level (C03W): every operation of every external actor either keeps the share value of a pair or performs an in-window swap on it, preserving an inductive invariant; lifted to all finite histories (history_nondecr = C03_partial: the full statement minus exactly the in-window swaps), and from genesis (C03G: a successful CreatePair establishes the invariant, every later history preserves it). "
          "Correspondence + oracle: after every step of every world family (accepted or rejected) reserve0*reserve1/S^2 of every pair is compared by exact cross-multiplication on the implementation's own ledger.",
          "§6 C03, §7 D1", "Lean 4 proof (order preserved by every pricing function; composition) + differential correspondence on cw-multi-test"),
  "C07": ("Lean theorems over the world model, for every operation kind: frame (no account outside Touched changes any balance), allowance frame (bystanders' allowances are never consumed), "
          "conservation of native coins and of cw20 tokens relative to their supply over any duplicate-free account list containing the touched accounts, supply of non-LP tokens changes only by a holder's own burn, "
-         "LP supply changes exactly by the minted share (plus the reserved unit) on provision and by the burned amount on withdrawal. Proved once through an inductive `Moves` relation over ledger primitives. "
+         "LP supply changes exactly by the minted share (plus the reserved unit) on provision and by the burned amount on withdrawal; an account that is not the actor, a pair or the router — in particular the designated receiver — never loses anything (receiver_never_loses). Proved once through an inductive `Moves` relation over ledger primitives. "
          "Correspondence + oracle: the full ledger is diffed around every step of the world families against the permitted set.",
          "§6 C07", "Lean 4 proof (frame + conservation by induction over ledger primitives) + differential correspondence on cw-multi-test"),
  "C13": ("Lean theorems: exact meaning of the route-shape check (the asks produced and never consumed later; accepted iff exactly one), empty and two-output routes rejected; every hop spends the router's whole balance of its offer asset and leaves none; "
@@ -66,13 +66,13 @@ CLAIMS = {
          "§6 C13", "Lean 4 proof (route shape + per-hop pass-through) + differential correspondence on cw-multi-test"),
  "C17": ("Lean theorems: the registry invariant RegOK (keys sorted, records keyed by their own assets, record = pair self-description, distinct pairs) is preserved by creation, by decimals re-registration for any number of pairs, and by every other operation; "
          "after a re-registration every record and pair containing the denom carries the new decimals in the denom's position, all else unchanged, nothing moved (defect D4 repaired). "
-         "Correspondence + oracle: world family factory with up to 17 pairs.", "§6 C17, §7 D4", "Lean 4 proof (invariant by induction over the registry fold) + differential correspondence on cw-multi-test"),
+         "Correspondence + oracle: world family factory with up to 47 pairs.", "§6 C17, §7 D4", "Lean 4 proof (invariant by induction over the registry fold) + differential correspondence on cw-multi-test"),
  "C20": ("Lean theorems: in any world where the pair is well-formed, a holder can withdraw any amount up to its balance whose entitlement is at least r_i/1e18 + 2 of each asset: the transaction succeeds (each step of the handler is shown to succeed), "
-         "with refunds ≥ 2; the supply bound it needs is cw20 conservation in inductive list-sum form, proved preserved by every operation. "
+         "with refunds ≥ 2; the supply bound it needs is cw20 conservation in inductive list-sum form, proved preserved by every operation; C20W: the same after any history of external actors' operations on a pair satisfying the invariant, and from the pair's creation on. "
          "Correspondence + oracle: world families inject withdrawals after arbitrary prefixes and the oracle demands success whenever the entitlement condition holds in the observed state.",
          "§6 C20", "Lean 4 proof (liveness: every step of the withdrawal succeeds under an inductive invariant) + differential correspondence on cw-multi-test"),
  "C15": ("Lean theorems: soundness and completeness of assert_slippage_tolerance, >100% always rejected, no abort on positive 128-bit inputs. "
-         "Correspondence: slippage family with deposits solved around both ratio limits.", "§6 C15", "Lean 4 proof + differential correspondence"),
+         "Correspondence: slippage family with deposits solved around both ratio limits; world family liquidity: accepted provisions and guard rejections judged on the deposits in pair order and the observed reserves.", "§6 C15", "Lean 4 proof + differential correspondence"),
 }
 
 # claimed in CLAIMS but proofs still being written
